@@ -192,8 +192,49 @@ Definition key_of (n0 : N) (ts : list tok) : string :=
   if negb (String.eqb fk "-") then fk
   else if negb FIX24 && has_failed_begin ts then "ping_send_fail_leaks_waiter" else "-".
 
+(* ---- kind "consts": the constants of the ping code as the MODEL computes them from its own
+   functions (which ICMP types notify / are requests, first identifier, identifier width, refusal
+   bound, timeout normalisation, minimal echo length); the harness extracts the same from the Go
+   source with go/ast on every run ---- *)
+Definition hdr4 (tl : N) : bytes :=
+  [0; 85; 85; 85; 85; 85; 2; 25; 0; 0; 0; 0; 8; 0; 69; 0; 0; tl; 0; 0; 0; 0; 64; 1; 248; 251;
+   192; 168; 0; 20; 192; 168; 0; 129].
+Definition hdr6 : bytes :=
+  [0; 85; 85; 85; 85; 85; 2; 25; 0; 0; 0; 0; 134; 221; 96; 0; 0; 0; 0; 8; 58; 64;
+   254; 128; 0; 0; 0; 0; 0; 0; 0; 0; 0; 0; 0; 25; 0; 20; 254; 128; 0; 0; 0; 0; 0; 0; 0; 0; 0; 0; 0; 1; 1; 41].
+Definition tmpl4 (t : N) : bytes := (hdr4 28 ++ [t; 0; 0; 0; 0; 7; 0; 1])%list.
+Definition tmpl6 (t : N) : bytes := (hdr6 ++ [t; 0; 0; 0; 0; 7; 0; 1])%list.
+Definition all_types : list N := map N.of_nat (seq 0 256).
+Definition notifies (f : bytes) : bool := match parse_notify f with Ok (Some _) => true | _ => false end.
+Definition is_request (f : bytes) : bool := match rfc_request_id f with Some _ => true | None => false end.
+Definition types_where (P : bytes -> bool) (tm : N -> bytes) : list N := filter (fun t => P (tm t)) all_types.
+Definition min_echo_len : string :=
+  match filter (fun n => notifies (hdr4 (20 + N.of_nat n) ++ firstn n [0; 0; 0; 0; 0; 7; 0; 1; 9; 9; 9; 9; 9; 9; 9; 9])%list) (seq 0 17) with
+  | n :: _ => dec_of_nat n
+  | [] => "?"
+  end.
+Definition tmax_s : string :=
+  match filter (fun k => (eff_timeout (Z.of_nat k * SECOND) =? Z.of_nat k * SECOND)%Z) (rev (seq 1 30)) with
+  | k :: _ => dec_of_nat k
+  | [] => "?"
+  end.
+Definition tag (pre : string) (t : N) : string := String.append pre (dec_of_N t).
+Definition notify_list : list string :=
+  List.app (map (tag "1:") (types_where notifies tmpl4)) (map (tag "58:") (types_where notifies tmpl6)).
+Definition request_list : list string :=
+  map dec_of_N (List.app (types_where is_request tmpl4) (types_where is_request tmpl6)).
+Definition consts_obs : string :=
+  "notify=" ++ join "," notify_list
+  ++ ";request=" ++ join "," request_list
+  ++ ";id0=" ++ dec_of_N (next init_go)
+  ++ ";idtype=" ++ (if (u16 65536 =? 0) && (u16 65535 =? 65535) then "uint16" else "?")
+  ++ ";fullgt=" ++ dec_of_N (TABLE_CAP - 1)
+  ++ ";tmo=" ++ tmax_s ++ "/" ++ dec_of_Z (eff_timeout 0 / SECOND)%Z
+  ++ ";minlen=" ++ min_echo_len.
+
 Definition dispatch (kind : string) (args : list string) : string :=
-  if String.eqb kind "scn" then
+  if String.eqb kind "consts" then out3 consts_obs "-" "-"
+  else if String.eqb kind "scn" then
     match args with
     | n :: ws =>
         match N_of_dec n, parse_toks ws with
